@@ -44,6 +44,14 @@ def Dialect.ver : Dialect → Ver
   | .amq => .am
   | .amn => .am
 
+/-- the dialects that cut a status into numbered fragments -/
+def Dialect.fragmenting : Dialect → Bool
+  | .gs1 => true
+  | .am => true
+  | .amq => true
+  | .amn => true
+  | _ => false
+
 /-- ASCII decimal digits of a natural number, most significant first (fuel = the number itself is ample) -/
 def decimalAux : Nat → Nat → Bytes → Bytes
   | 0, _, acc => acc
@@ -147,12 +155,14 @@ structure WfStatus (s : Status) : Prop where
   player_keys : ∀ p ∈ s.players, p ≠ [] ∧ ∀ kv ∈ p, noUsc kv.1 ∧ kv.1 ≠ kObjBare
   /-- objective names are non-empty -/
   objective_names : ∀ kv ∈ s.objectives, kv.1 ≠ []
-  /-- no value is the word `queryid` (an AdminMod fragment cut between a name and its value would lose it) -/
-  values : ∀ v ∈ (s.fields.map (·.2)) ++ (s.players.flatMap fun p => p.map (·.2)) ++ s.objectives.map (·.2), v ≠ kQueryid
+  /-- no value is the word `queryid` (an AdminMod fragment cut between a name and its value would
+  lose it) or `statusresponse` (a fragment starting with it would be taken for AdminMod) -/
+  values : ∀ v ∈ (s.fields.map (·.2)) ++ (s.players.flatMap fun p => p.map (·.2)) ++ s.objectives.map (·.2),
+    v ≠ kQueryid ∧ v ≠ kStatusresponse
 
-/-- cuts acceptable for dialect `d` on a field sequence of length `len`: strictly increasing,
-inside the sequence; GS1 fragments are cut between pairs only, AdminMod ones anywhere -/
-def WfCuts (d : Dialect) (len : Nat) (cuts : List Nat) : Prop :=
-  cuts.Pairwise (· < ·) ∧ (∀ c ∈ cuts, 0 < c ∧ c < len) ∧ (d = .gs1 → ∀ c ∈ cuts, c % 2 = 0)
+/-- cuts on a field sequence of length `len`: strictly increasing, inside the sequence (between
+any two fields, also between a name and its value, as in the captured AdminMod responses) -/
+def WfCuts (len : Nat) (cuts : List Nat) : Prop :=
+  cuts.Pairwise (· < ·) ∧ (∀ c ∈ cuts, 0 < c ∧ c < len)
 
 end Swat4.GS1Spec
